@@ -35,7 +35,13 @@ pub struct Found {
 #[derive(Clone, Debug, Serialize, Deserialize)]
 pub enum WorkerMsg {
     Found(Box<Found>),
-    Done { runs: u64, stats: Stats },
+    Done {
+        runs: u64,
+        stats: Stats,
+        /// (run index, digest of scenario + observations) — the event log of the determinism proof
+        #[serde(default)]
+        digests: Vec<(u64, u64)>,
+    },
 }
 
 #[derive(Clone, Debug, Serialize, Deserialize)]
@@ -97,16 +103,17 @@ pub struct Budget {
 
 pub fn budget(prop: &str, tier: Tier) -> Budget {
     let (q, t) = match prop {
-        "C10" => (2400, 120_000),
-        "C18" => (400, 15_000),
-        "C15" => (2400, 120_000),
-        "C06" => (3000, 200_000),
-        "C12" => (2000, 100_000),
-        "C11" | "C03" => (3000, 150_000),
+        "C10" => (4_000, 250_000),
+        "C18" => (2_400, 90_000),
+        "C15" => (12_000, 900_000),
+        "C06" => (20_000, 1_500_000),
+        "C12" => (8_000, 350_000),
+        "C11" => (12_000, 600_000),
+        "C03" => (12_000, 700_000),
         _ => (1000, 50_000),
     };
     match tier {
-        Tier::Quick => Budget { runs: q, max_wall_s: 50 },
+        Tier::Quick => Budget { runs: q, max_wall_s: 75 },
         Tier::Thorough => Budget { runs: t, max_wall_s: 840 },
     }
 }
@@ -118,13 +125,28 @@ pub fn worker(prop: &str, tier: Tier, master: u64, start: u64, end: u64, deadlin
     let mut runs = 0;
     let out = std::io::stdout();
     let mut classes_seen: Vec<String> = Vec::new();
+    let mut digests: Vec<(u64, u64)> = Vec::new();
+    let want_digests = std::env::var("VERIF_DIGESTS").is_ok();
     for i in start..end {
         if t0.elapsed().as_secs() >= deadline_s {
             break;
         }
         let seed = run_seed(master, prop, i);
         let scn = props::generate(prop, seed, tier, i);
-        let vs = props::check(&scn, &mut stats);
+        let vs = if want_digests {
+            // digest of everything the run produced: its scenario, its violations and its own counters
+            let mut st = Stats::default();
+            let vs = props::check(&scn, &mut st);
+            let text = format!("{}|{}|{}", serde_json::to_string(&scn).unwrap_or_default(), serde_json::to_string(&vs).unwrap_or_default(), serde_json::to_string(&st).unwrap_or_default());
+            if let Ok(d) = std::env::var("VERIF_DIGEST_DUMP") {
+                let _ = std::fs::write(format!("{d}/{i}-{start}.txt"), &text);
+            }
+            digests.push((i, crate::rng::hash_str(&text)));
+            stats.merge(st);
+            vs
+        } else {
+            props::check(&scn, &mut stats)
+        };
         runs += 1;
         for v in vs {
             stats.inc("violations_raw");
@@ -141,7 +163,7 @@ pub fn worker(prop: &str, tier: Tier, master: u64, start: u64, end: u64, deadlin
         }
     }
     let mut o = out.lock();
-    let _ = writeln!(o, "{}", serde_json::to_string(&WorkerMsg::Done { runs, stats }).unwrap_or_default());
+    let _ = writeln!(o, "{}", serde_json::to_string(&WorkerMsg::Done { runs, stats, digests }).unwrap_or_default());
     let _ = o.flush();
 }
 
@@ -149,6 +171,7 @@ struct SliceResult {
     found: Vec<Found>,
     done: Option<(u64, Stats)>,
     died: Option<String>,
+    digests: Vec<(u64, u64)>,
 }
 
 /// CPU seconds a worker may burn per run of its slice before it is presumed to spin in a loop that
@@ -181,12 +204,15 @@ fn spawn_slice(prop: &str, tier: Tier, master: u64, start: u64, end: u64, deadli
 }
 
 fn collect(mut child: std::process::Child) -> SliceResult {
-    let mut res = SliceResult { found: vec![], done: None, died: None };
+    let mut res = SliceResult { found: vec![], done: None, died: None, digests: vec![] };
     if let Some(so) = child.stdout.take() {
         for line in BufReader::new(so).lines().map_while(Result::ok) {
             match serde_json::from_str::<WorkerMsg>(&line) {
                 Ok(WorkerMsg::Found(f)) => res.found.push(*f),
-                Ok(WorkerMsg::Done { runs, stats }) => res.done = Some((runs, stats)),
+                Ok(WorkerMsg::Done { runs, stats, digests }) => {
+                    res.done = Some((runs, stats));
+                    res.digests = digests;
+                }
                 Err(_) => {}
             }
         }
@@ -220,7 +246,7 @@ fn run_pool(slices: &[(u64, u64)], opts: &CheckOpts, w: u64, max_wall: u64, t0: 
             }
             let r = match spawn_slice(&prop, tier, master, a, e, remaining.min(100_000)) {
                 Ok(child) => collect(child),
-                Err(err) => SliceResult { found: vec![], done: None, died: Some(err.to_string()) },
+                Err(err) => SliceResult { found: vec![], done: None, died: Some(err.to_string()), digests: vec![] },
             };
             if let Ok(mut g) = results.lock() {
                 g.push((a, e, r));
@@ -468,6 +494,60 @@ fn minimise_found(f: Found, kf: &KnownFindings) -> Found {
             Found { violation: v2, scenario: small, minimised: true, minimise_checks: m.checks, minimised_lines: min_lines, ..f }
         }
         _ => f,
+    }
+}
+
+/// Determinism proof (DESIGN.md §8): run the same run indices in separate processes with different
+/// slice layouts / worker counts and compare the per-run digests.
+pub fn determinism(prop: &str, tier: Tier, master: u64, runs: u64) -> i32 {
+    std::env::set_var("VERIF_DIGESTS", "1");
+    let layouts: [(u64, u64); 3] = [(1, 64), (4, 7), (16, 3)];
+    let mut all: Vec<std::collections::BTreeMap<u64, u64>> = Vec::new();
+    for (workers, slice) in layouts {
+        let mut slices = Vec::new();
+        let mut s = 0;
+        while s < runs {
+            slices.push((s, (s + slice).min(runs)));
+            s += slice;
+        }
+        let queue = std::sync::Arc::new(std::sync::Mutex::new(slices.into_iter()));
+        let out: std::sync::Arc<std::sync::Mutex<std::collections::BTreeMap<u64, u64>>> = Default::default();
+        let mut hs = Vec::new();
+        for _ in 0..workers {
+            let (queue, out, prop) = (queue.clone(), out.clone(), prop.to_string());
+            hs.push(std::thread::spawn(move || loop {
+                let next = queue.lock().ok().and_then(|mut q| q.next());
+                let Some((a, e)) = next else { break };
+                if let Ok(child) = spawn_slice(&prop, tier, master, a, e, 100_000) {
+                    let r = collect(child);
+                    if let Ok(mut g) = out.lock() {
+                        g.extend(r.digests);
+                    }
+                }
+            }));
+        }
+        for h in hs {
+            let _ = h.join();
+        }
+        let m = out.lock().map(|g| g.clone()).unwrap_or_default();
+        println!("layout workers={workers} slice={slice}: {} digests", m.len());
+        all.push(m);
+    }
+    let mut diverged = 0;
+    for i in 0..runs {
+        let vals: Vec<Option<&u64>> = all.iter().map(|m| m.get(&i)).collect();
+        if vals.iter().any(|v| v.is_none()) || vals.windows(2).any(|w| w[0] != w[1]) {
+            diverged += 1;
+            if diverged <= 5 {
+                println!("run {i} diverges: {vals:?}");
+            }
+        }
+    }
+    println!("determinism {prop}: {runs} run indices x {} layouts, {diverged} divergent", all.len());
+    if diverged > 0 {
+        2
+    } else {
+        0
     }
 }
 
